@@ -48,6 +48,8 @@ type Core struct {
 	GetGateAfter func(key string, found bool)
 	// GetFault, when set, is consulted before every Get; returning true makes that Get fail with ErrInjectedRead.
 	GetFault func(key string) bool
+	// TxnGate, when set, is called right after a read transaction took its snapshot (outside the lock).
+	TxnGate func()
 	// WriteGate, when set, is called before every atomic write (direct Put/Delete or batch commit) is applied.
 	WriteGate func(w Write)
 }
@@ -211,7 +213,11 @@ func (t *Txn) NewTransaction(_ context.Context, readOnly bool) (ds.Txn, error) {
 	if !readOnly {
 		return nil, errors.New("memds: only read-only transactions")
 	}
-	return &rtxn{snap: t.C.Snapshot(), c: t.C}, nil
+	r := &rtxn{snap: t.C.Snapshot(), c: t.C}
+	if g := t.C.TxnGate; g != nil {
+		g()
+	}
+	return r, nil
 }
 
 type rtxn struct {
